@@ -236,8 +236,27 @@ pub fn run(ctx: &mut Ctx) {
                             both_infeasible = judge_certificate(&evf, vf == 'P', fe.κ, fresh.c, ta, tr).is_empty() && fail.is_none();
                         }
                     }
+                    // a random update can leave the problem within tolerance of infeasibility: then a point passing
+                    // the documented optimality test AND a certificate passing the documented infeasibility test both
+                    // exist, and either verdict is what the documentation promises.  Accepted only when the fresh
+                    // solver's result passes its own documented test on the model data (the live one was judged above).
+                    let mut both_within_tolerance = false;
+                    if fail.is_none() && ((vl == 'S' && (vf == 'P' || vf == 'D')) || (vf == 'S' && (vl == 'P' || vl == 'D'))) {
+                        let pmf = presolve_model(&pm_problem, &st, &fresh, bound);
+                        let evf = eval_with_model(&pm_problem, &fresh, &pmf, bound);
+                        both_within_tolerance = if vf == 'S' {
+                            fresh.status == SolverStatus::Solved && kkt::judge_solved(&evf, st.tol_feas, st.tol_gap_abs, st.tol_gap_rel, 1.0).is_empty() && res.status != SolverStatus::AlmostPrimalInfeasible && res.status != SolverStatus::AlmostDualInfeasible
+                        } else if let Some(fe) = fresh.final_event() {
+                            let almost = matches!(fresh.status, SolverStatus::AlmostPrimalInfeasible | SolverStatus::AlmostDualInfeasible);
+                            !almost && res.status == SolverStatus::Solved && judge_certificate(&evf, vf == 'P', fe.κ, fresh.c, st.tol_infeas_abs, st.tol_infeas_rel).is_empty()
+                        } else {
+                            false
+                        };
+                    }
                     if both_infeasible {
                         ctx.bump("primal_and_dual_infeasible_after_update_(either_verdict_valid)");
+                    } else if both_within_tolerance {
+                        ctx.bump("solution_and_certificate_both_within_tolerance_after_update_(ill-posed)");
                     } else if vl != '-' && vf != '-' && vl != vf {
                         fail = Some(("verdict_differs_from_fresh_solver".into(), json!({"live": status_name(res.status), "fresh": status_name(fresh.status)})));
                     } else if res.status == SolverStatus::Solved && fresh.status == SolverStatus::Solved {
